@@ -16,6 +16,10 @@ CHECKS = {
          "For every filter the whole integer window and every input length up to the bound is executed through ApplyFilter and through the template syntax and compared with a small independent reference (exact) or shape predicate (layout filters).",
          "Reference functions are written from Django's documentation and the repository fixtures; behaviour the property leaves open (listed in the evidence assumptions) is executed but not judged.",
          "DESIGN.md §3 C18"),
+ "C14": ("exhaustive fault enumeration: for every small program every failing-call position and every failing/short Write position is executed on all four Execute entry points",
+         "All programs up to N output nodes in 14 wrapper constructs x every fault point (k-th evaluated call fails, j-th Write of the caller's writer fails or is short) are run on Execute, ExecuteBytes, ExecuteWriter and ExecuteWriterUnbuffered with a recording writer; agreement, all-or-nothing, prefix and error hand-back are checked on each.",
+         "Fault seams are the public io.Writer and a context function, both implemented by the harness; output nodes are text or one call (filters/expressions inside nodes belong to other properties).",
+         "DESIGN.md §3 C14", "fault_enumeration"),
 }
 
 NOT_YET = {}
@@ -28,7 +32,8 @@ def main():
     for p in props:
         pid = p['id']
         if pid in CHECKS:
-            tech, text, note, ref = CHECKS[pid]
+            tech, text, note, ref = CHECKS[pid][:4]
+            cat = CHECKS[pid][4] if len(CHECKS[pid]) > 4 else "model_checking"
             checks.append({
                 "property_id": pid,
                 "quick_cmd": f"./run.sh {pid} quick",
@@ -36,7 +41,7 @@ def main():
                 "evidence_file": f"/verif/evidence/{pid}.json",
                 "replay_cmd_template": "./.build/mc replay {path}",
                 "engine": "mc",
-                "level_claimed": {"category": "model_checking", "text": text, "design_ref": ref},
+                "level_claimed": {"category": cat, "text": text, "design_ref": ref},
                 "level_note": note,
                 "technique": tech,
             })
